@@ -88,3 +88,26 @@ CHECKS['C18'] = dict(
     technique='explicit-state BFS over API histories on the real code vs reference model',
     assumptions=['setting values are compared as unsigned 16-bit', 'name record 0 unretrievable fonts are skipped for labels (DESIGN 7.6)'],
 )
+
+from checks_py import stream_families
+HOOK_COMMITS.append('7573bac2')
+
+_PROG_RULE = ('fonts enumerated by gen/progenum.py and filtered by the REAL loader: (action) every action program of <=3 atoms (quick) / <=4 atoms + 5 structural atoms (thorough) over a 26-atom alphabet '
+              '{NEXT, PUT_GLYPH x|y, PUT_SUBS -1|0|+1, PUT_COPY -1|0|+1, INSERT, DELETE, ASSOC, attach.to -2..2, ATTR_SET adv/shift/att/insert, IATTR_SET user, SET_FEAT, slot/glyph-attr readers} x 6 terminators '
+              '(RET_ZERO, POP_RET -2..2), in 3 (quick) / 6 (thorough) rule contexts (rule length 1..3, pre-context 0..1, maxRuleLoop 1/2/5, substitution or positioning pass) followed by a fixed attaching pass; '
+              '(constraint) every constraint program of <=4 / <=5 atoms over 20 atoms incl. CNTXT_ITEM bodies netting 0/+1/+2; (twopass) all ordered pairs (thorough: triples) of 18 hand-written attach/re-attach/delete/insert/copy/assoc rules '
+              'in two passes / one pass / substitution+positioning, LTR and RTL fonts.  Every accepted font x every text of length 0..3 (thorough 0..4) over {a, b, unmapped} + astral/mark/long texts x dir flags {0,1,3,6} (thorough 0..7) x {font NULL, ppm 12}. ')
+
+for _p, _what in (('C02', 'oracle: ASan/UBSan silence, rule-loop counter hook <= maxRuleLoop x (slots + insert budget + 2), n_slots <= 64 x max(1,nChars), all gr_seg_*/gr_slot_*/gr_cinfo_* queries incl. every gr_slot_attr code, allocation balance, table borrow discipline'),
+                  ('C03', 'oracle: next/prev chain visits exactly n_slots distinct slots ending at last, prev inverse, indices a permutation, finite positions, gid < n_glyphs'),
+                  ('C04', 'oracle: parent chains terminate inside the segment, every attached slot exactly once in its parent\'s child chain, chain members name that parent, bases form one sibling chain'),
+                  ('C05', 'oracle: n_cinfo == nChars, characters and bases equal the reference decoding, slot before/after/original in range, every character covered, cinfo before/after in [0,n_slots)')):
+    CHECKS[_p] = dict(
+        level='exploration',
+        steps=[dict(name='program_enumeration', py=stream_families(['twopass', 'constraint', 'action'], _p), targets=[('asan', 'c02_stream')])],
+        rule=_PROG_RULE + _what + '. distinct = distinct structural segment dumps (slots, glyphs, attachments, associations) observed',
+        level_text='Bounded exhaustive enumeration of rule programs (the font is the program) crossed with all short texts and direction flags, each executed on the real engine under sanitizers with the structural oracle evaluated on every resulting segment.',
+        level_note='Trusted: ASan/UBSan, the structural oracle (src/common/segcheck.hpp), the reference UTF decoder. Program length, alphabet and text length are bounded; collision passes are not part of the program space. The four properties C02-C05 share one cached run per tree.',
+        technique='exhaustive bounded program enumeration (fonts as programs) x all short inputs on the real code, invariant oracle on every final state',
+        assumptions=['loop bound uses the insert budget remaining at pass start (hook GRAPHITE2_VERIF)'],
+    )
